@@ -1,8 +1,10 @@
 import Reduino.Lang.Escape
 import Reduino.Lang.WF
 import Reduino.Lang.Libs
+import Reduino.Lang.Tr2
+import Reduino.Lemmas.C01p
 /-
-  Helper lemmas for Props/C06: string-literal escaping, scoping of the sketch `tr` produces, shape of the rendering.
+  Helper lemmas for Props/C06: string-literal escaping, scoping of the sketches `tr` and `tr2` produce, shape of the rendering.
 -/
 namespace Reduino.Lemmas.C06
 open Reduino.Lang Reduino.Lang.Esc Reduino.Lang.WF
@@ -497,4 +499,347 @@ theorem tr_wf' (p : Prog) (c : CProg) (ht : tr p = .ok c) (hc : Closed p = true)
           refine ⟨⟨inv.globals, hsetup⟩, stmtOk_mono _ _ _ _ hnames ?_⟩
           exact trNested_ok b _ _ _ _ _ _ _ hloop hc (fun x hx => by rw [inv.scope]; exact hx) (fun _ h => absurd ⟨rfl, rfl⟩ h)
 
+
+/-! ### scoping of `tr2` (hoisted declarations) -/
+section Promotion
+open Reduino.Lemmas.C01 Reduino.Lemmas.C01p
+
+/-- every name declared in `te` is in the scope `sc` -/
+def InSc (sc : List String) (te : C.TyEnv) : Prop := ∀ x, (te.lookup x).isSome = true → sc.contains x = true
+
+theorem InSc_sub {sc : List String} {a b : C.TyEnv} (h : Sub a b) (hb : InSc sc b) : InSc sc a := by
+  intro x hx
+  obtain ⟨t, ht⟩ := Option.isSome_iff_exists.1 hx
+  exact hb x (by rw [h x t ht]; rfl)
+
+/-- the declarations after a block are in scope once the promoted ones are -/
+theorem InSc_new {sc : List String} {te te' : C.TyEnv} (h : InSc sc (te ++ newDecls te te')) : InSc sc te' := by
+  intro x hx
+  apply h x
+  rw [List.lookup_append, lookup_newDecls]
+  cases h0 : te.lookup x with
+  | some t => rfl
+  | none => simpa using hx
+
+theorem InSc_sorted {sc : List String} {te te' : C.TyEnv} (h : InSc sc (te ++ sortDecls (newDecls te te'))) :
+    InSc sc te' := by
+  intro x hx
+  apply h x
+  rw [List.lookup_append, lookup_sortDecls, lookup_newDecls]
+  cases h0 : te.lookup x with
+  | some t => rfl
+  | none => simpa using hx
+
+theorem InSc_for {sc : List String} {te te' : C.TyEnv} {i : String} {t : Ty}
+    (h : InSc sc (te ++ newDecls ((i, t) :: te) te')) : InSc (i :: sc) te' := by
+  intro x hx
+  simp only [List.contains_cons, Bool.or_eq_true, beq_iff_eq]
+  by_cases hxi : x = i
+  · exact .inl hxi
+  · right
+    apply h x
+    rw [List.lookup_append, lookup_newDecls, lookup_cons_ne _ _ hxi]
+    cases h0 : te.lookup x with
+    | some t => rfl
+    | none => simpa using hx
+
+theorem InSc_chain {sc : List String} {te a b : C.TyEnv}
+    (h : InSc sc (te ++ (a ++ b.filter fun d => (a.lookup d.1).isNone))) : InSc sc (te ++ a) ∧ InSc sc (te ++ b) := by
+  constructor
+  · intro x hx
+    apply h x
+    rw [List.lookup_append] at hx ⊢
+    rw [List.lookup_append]
+    cases h1 : te.lookup x <;> cases h2 : a.lookup x <;> simp_all
+  · intro x hx
+    apply h x
+    rw [List.lookup_append] at hx ⊢
+    rw [List.lookup_append, lookup_filter_isNone]
+    cases h1 : te.lookup x <;> cases h2 : a.lookup x <;> simp_all
+
+/-- body of a promotable block: well-scoped in any scope that contains the declarations after the block -/
+theorem trBody2_ok (s : Stmt) : ∀ (te : C.TyEnv) (r : Stmt × C.TyEnv) (sc : List String) (l : Bool),
+    trBody2 te s = .ok r → readsOk sc l s = true → InSc sc r.2 → stmtOk sc l r.1 = true := by
+  induction s with
+  | skip => intro te r sc l h _ _; simp only [trBody2] at h; cases h; rfl
+  | seq a b iha ihb =>
+    intro te r sc l h hr hin
+    obtain ⟨r1, r2, h1, h2, rfl⟩ := trBody2_seq_cases h
+    simp only [readsOk, Bool.and_eq_true] at hr
+    simp only [stmtOk, Bool.and_eq_true]
+    exact ⟨iha _ _ _ _ h1 hr.1 (InSc_sub (trBody2_sub h2) hin), ihb _ _ _ _ h2 hr.2 hin⟩
+  | assign x e =>
+    intro te r sc l h hr hin
+    obtain ⟨h1, hc⟩ := trBody2_assign_cases h
+    simp only [readsOk] at hr
+    rw [h1]
+    simp only [stmtOk, Bool.and_eq_true]
+    refine ⟨?_, hr⟩
+    rcases hc with ⟨hl, h2⟩ | ⟨hl, h2⟩
+    · rw [h2] at hin; exact hin x hl
+    · rw [h2] at hin; exact hin x (by rw [lookup_snoc_self _ hl]; rfl)
+  | _ =>
+    intro te r sc l h hr hin
+    obtain ⟨h1, h2⟩ := trBody2_other_cases (by rfl) h
+    rw [h2] at hin
+    exact trNested_ok _ _ _ _ _ _ _ _ h1 hr hin (fun h _ => h)
+
+theorem elseTr_ok (e : Stmt)
+    (ih : ∀ (te : C.TyEnv) (r : Stmt × C.TyEnv) (sc : List String) (l : Bool),
+      trChain2 te e = .ok r → readsOk sc l e = true → InSc sc (te ++ r.2) → stmtOk sc l r.1 = true) :
+    ∀ (te : C.TyEnv) (re : Stmt × C.TyEnv) (sc : List String) (l : Bool),
+      elseTr te e = .ok re → readsOk sc l e = true → InSc sc (te ++ re.2) → stmtOk sc l re.1 = true := by
+  intro te re sc l h hr hin
+  cases e with
+  | skip => simp only [elseTr] at h; cases h; rfl
+  | ifs c2 t2 e2 => simp only [elseTr] at h; exact ih _ _ _ _ h hr hin
+  | _ =>
+    simp only [elseTr] at h
+    obtain ⟨re0, hre0, h⟩ := bind_ok h
+    cases h
+    exact trBody2_ok _ te re0 sc l hre0 hr (InSc_sorted (te := te) (te' := re0.2) hin)
+
+/-- an if / elif / else chain: well-scoped once the names it promotes are in scope -/
+theorem trChain2_ok (s : Stmt) : ∀ (te : C.TyEnv) (r : Stmt × C.TyEnv) (sc : List String) (l : Bool),
+    trChain2 te s = .ok r → readsOk sc l s = true → InSc sc (te ++ r.2) → stmtOk sc l r.1 = true := by
+  induction s with
+  | ifs c t e _ ihe =>
+    intro te r sc l h hr hin
+    rw [trChain2_unfold] at h
+    obtain ⟨rt, hrt, h⟩ := bind_ok h
+    obtain ⟨re, hre, h⟩ := bind_ok h
+    cases h
+    obtain ⟨hinT, hinE⟩ := InSc_chain hin
+    simp only [readsOk, Bool.and_eq_true] at hr
+    simp only [stmtOk, Bool.and_eq_true]
+    exact ⟨⟨hr.1.1, trBody2_ok _ _ _ _ _ hrt hr.1.2 (InSc_sorted hinT)⟩, elseTr_ok e ihe _ _ _ _ hre hr.2 hinE⟩
+  | _ =>
+    intro te r sc l h hr hin
+    simp only [trChain2] at h
+    obtain ⟨s', hs', h⟩ := bind_ok h
+    cases h
+    rw [List.append_nil] at hin
+    exact trNested_ok _ _ _ _ _ _ _ _ hs' hr hin (fun h _ => h)
+
+theorem elseTr_fresh (e : Stmt)
+    (ih : ∀ (te : C.TyEnv) (r : Stmt × C.TyEnv), trChain2 te e = .ok r → Keys te → Fresh te r.2) :
+    ∀ (te : C.TyEnv) (re : Stmt × C.TyEnv), elseTr te e = .ok re → Keys te → Fresh te re.2 := by
+  intro te re h hk
+  cases e with
+  | skip => simp only [elseTr] at h; cases h; exact Fresh_nil _
+  | ifs c2 t2 e2 => simp only [elseTr] at h; exact ih _ _ h hk
+  | _ =>
+    simp only [elseTr] at h
+    obtain ⟨re0, hre0, h⟩ := bind_ok h
+    cases h
+    exact Fresh_sortDecls (Fresh_newDecls _ (trBody2_keys hre0 hk))
+
+/-- the names a chain promotes are pairwise distinct and not declared before the chain -/
+theorem trChain2_fresh (s : Stmt) : ∀ (te : C.TyEnv) (r : Stmt × C.TyEnv),
+    trChain2 te s = .ok r → Keys te → Fresh te r.2 := by
+  induction s with
+  | ifs c t e _ ihe =>
+    intro te r h hk
+    rw [trChain2_unfold] at h
+    obtain ⟨rt, hrt, h⟩ := bind_ok h
+    obtain ⟨re, hre, h⟩ := bind_ok h
+    cases h
+    exact Fresh_append_filter (Fresh_sortDecls (Fresh_newDecls _ (trBody2_keys hrt hk))) (elseTr_fresh e ihe _ _ hre hk)
+  | _ =>
+    intro te r h hk
+    simp only [trChain2] at h
+    obtain ⟨s', hs', h⟩ := bind_ok h
+    cases h
+    exact Fresh_nil _
+
+/-- the prologue pass only adds declarations and keeps the bookkeeping invariant (distinct globals, name-free initialisers) -/
+theorem trTop2_inv (s : Stmt) : ∀ (acc acc' : TopAcc), trTop2 acc s = .ok acc' →
+    Sub acc.te acc'.te ∧ (Inv acc → Inv acc') := by
+  induction s with
+  | skip => intro acc acc' h; simp only [trTop2] at h; cases h; exact ⟨Sub_refl _, fun hI => hI⟩
+  | seq a b iha ihb =>
+    intro acc acc' h
+    simp only [trTop2] at h
+    obtain ⟨acc1, ha, hb⟩ := bind_ok h
+    obtain ⟨a1, a2⟩ := iha _ _ ha
+    obtain ⟨b1, b2⟩ := ihb _ _ hb
+    exact ⟨Sub_trans a1 b1, fun hI => b2 (a2 hI)⟩
+  | assign x e =>
+    intro acc acc' h
+    simp only [trTop2, trTop] at h
+    split at h
+    · cases h; exact ⟨Sub_refl _, fun hI => hI⟩
+    · rename_i hl
+      split at h
+      · rename_i hnf
+        cases h
+        obtain ⟨f1, _, f3⟩ := facts_new (t := inferTy acc.te e) acc.setup hl hnf.1
+        exact ⟨f1, f3⟩
+      · cases h
+        obtain ⟨f1, _, f3⟩ := facts_new (t := inferTy acc.te e) (Stmt.assign x e :: acc.setup) hl
+          (defaultOf_nameFree (inferTy acc.te e))
+        exact ⟨f1, f3⟩
+  | ifs c t e _ _ =>
+    intro acc acc' h
+    simp only [trTop2] at h
+    obtain ⟨r, hr, h⟩ := bind_ok h
+    cases h
+    exact ⟨Sub_append _ _, fun hI => Inv_addPromoted _ hI (trChain2_fresh _ _ _ hr (Inv_keys hI))⟩
+  | whileLoop c b _ =>
+    intro acc acc' h
+    simp only [trTop2] at h
+    obtain ⟨r, hr, h⟩ := bind_ok h
+    cases h
+    exact ⟨Sub_append _ _, fun hI => Inv_addPromoted _ hI (Fresh_newDecls _ (trBody2_keys hr (Inv_keys hI)))⟩
+  | forRange i n b _ =>
+    intro acc acc' h
+    simp only [trTop2] at h
+    split at h
+    · cases h
+    · rename_i hi
+      simp only [Bool.not_eq_true, Option.isSome_eq_false_iff, Option.isNone_iff_eq_none] at hi
+      obtain ⟨r, hr, h⟩ := bind_ok h
+      cases h
+      refine ⟨Sub_append _ _, fun hI => Inv_addPromoted _ hI ?_⟩
+      have hk := Inv_keys hI
+      have hk' : Keys ((i, Ty.int) :: acc.te) := by
+        unfold Keys
+        rw [List.pairwise_cons]
+        exact ⟨fun a ha => (keys_of_lookup_none hi a ha).symm, hk⟩
+      obtain ⟨f1, f2⟩ := Fresh_newDecls ((i, .int) :: acc.te) (trBody2_keys hr hk')
+      refine ⟨f1, fun d hd => ?_⟩
+      have := f2 d hd
+      by_cases hdi : d.1 = i
+      · rw [hdi, lookup_cons_eq] at this; cases this
+      · rw [lookup_cons_ne _ _ hdi] at this; exact this
+  | _ =>
+    intro acc acc' h
+    simp only [trTop2] at h
+    obtain ⟨s', hs', h⟩ := bind_ok h
+    cases h
+    exact ⟨Sub_refl _, fun hI => hI⟩
+
+theorem mem_cons_setup {sc : List String} {s' : Stmt} {l : List Stmt} (h1 : stmtOk sc false s' = true)
+    (h2 : ∀ s0 ∈ l, stmtOk sc false s0 = true) : ∀ s0 ∈ s' :: l, stmtOk sc false s0 = true := by
+  intro s0 hs0
+  rcases List.mem_cons.1 hs0 with rfl | hs0
+  · exact h1
+  · exact h2 _ hs0
+
+/-- every statement the prologue pass puts into `setup()` is well-scoped in any scope that contains the FINAL declarations -/
+theorem trTop2_setup (s : Stmt) : ∀ (acc acc' : TopAcc) (sc : List String), trTop2 acc s = .ok acc' →
+    readsOk sc false s = true → InSc sc acc'.te → (∀ s0 ∈ acc.setup, stmtOk sc false s0 = true) →
+    ∀ s0 ∈ acc'.setup, stmtOk sc false s0 = true := by
+  induction s with
+  | skip => intro acc acc' sc h _ _ hs; simp only [trTop2] at h; cases h; exact hs
+  | seq a b iha ihb =>
+    intro acc acc' sc h hr hin hs
+    simp only [trTop2] at h
+    obtain ⟨acc1, ha, hb⟩ := bind_ok h
+    simp only [readsOk, Bool.and_eq_true] at hr
+    exact ihb _ _ _ hb hr.2 hin (iha _ _ _ ha hr.1 (InSc_sub (trTop2_inv b _ _ hb).1 hin) hs)
+  | assign x e =>
+    intro acc acc' sc h hr hin hs
+    simp only [readsOk] at hr
+    simp only [trTop2, trTop] at h
+    split at h
+    · rename_i t hl
+      cases h
+      refine mem_cons_setup ?_ hs
+      simp only [stmtOk, Bool.and_eq_true]
+      exact ⟨hin x (by rw [hl]; rfl), hr⟩
+    · rename_i hl
+      split at h
+      · cases h; exact hs
+      · cases h
+        refine mem_cons_setup ?_ hs
+        simp only [stmtOk, Bool.and_eq_true]
+        exact ⟨hin x (by rw [lookup_snoc_self _ hl]; rfl), hr⟩
+  | ifs c t e _ _ =>
+    intro acc acc' sc h hr hin hs
+    simp only [trTop2] at h
+    obtain ⟨r, hr', h⟩ := bind_ok h
+    cases h
+    exact mem_cons_setup (trChain2_ok _ _ _ _ _ hr' hr hin) hs
+  | whileLoop c b _ =>
+    intro acc acc' sc h hr hin hs
+    simp only [trTop2] at h
+    obtain ⟨r, hr', h⟩ := bind_ok h
+    cases h
+    refine mem_cons_setup ?_ hs
+    simp only [readsOk, Bool.and_eq_true] at hr
+    simp only [stmtOk, Bool.and_eq_true]
+    exact ⟨hr.1, trBody2_ok _ _ _ _ _ hr' hr.2 (InSc_new hin)⟩
+  | forRange i n b _ =>
+    intro acc acc' sc h hr hin hs
+    simp only [trTop2] at h
+    split at h
+    · cases h
+    · obtain ⟨r, hr', h⟩ := bind_ok h
+      cases h
+      refine mem_cons_setup ?_ hs
+      simp only [readsOk, Bool.and_eq_true] at hr
+      simp only [stmtOk, Bool.and_eq_true]
+      have hsub : ∀ y, sc.contains y = true → (i :: sc).contains y = true := by
+        intro y hy; simp only [List.contains_cons, Bool.or_eq_true]; exact Or.inr hy
+      exact ⟨foldArg_ok _ _ (exprOk_mono hsub _ hr.1), trBody2_ok _ _ _ _ _ hr' hr.2 (InSc_for hin)⟩
+  | _ =>
+    intro acc acc' sc h hr hin hs
+    simp only [trTop2] at h
+    obtain ⟨s', hs', h⟩ := bind_ok h
+    cases h
+    exact mem_cons_setup (trNested_ok _ _ _ _ _ _ _ _ hs' hr hin (fun h => by cases h)) hs
+
+/-- pairwise distinct names with variable-free initialisers form a well-formed declaration list -/
+theorem globalsOk_of_distinct (gs : List (String × Ty × Expr)) : ∀ (sc : List String),
+    (∀ g ∈ gs, g.2.2.nameFree = true) → gs.Pairwise (fun a b => a.1 ≠ b.1) →
+    (∀ g ∈ gs, sc.contains g.1 = false) → globalsOk sc gs = true := by
+  induction gs with
+  | nil => intros; rfl
+  | cons g gs ih =>
+    intro sc hnf hp hsc
+    obtain ⟨x, t, e⟩ := g
+    rw [List.pairwise_cons] at hp
+    simp only [globalsOk, Bool.and_eq_true, Bool.not_eq_true']
+    refine ⟨⟨hsc _ (List.mem_cons_self ..), ?_⟩, ih _ (fun g hg => hnf g (List.mem_cons_of_mem _ hg)) hp.2 ?_⟩
+    · simp [exprOk, nameFree_vars e (hnf _ (List.mem_cons_self ..))]
+    · intro g hg
+      simp only [List.contains_cons, Bool.or_eq_false_iff, beq_eq_false_iff_ne, ne_eq]
+      exact ⟨fun h => hp.1 g hg h.symm, hsc g (List.mem_cons_of_mem _ hg)⟩
+
+theorem tr2_wf' (p : Prog) (c : CProg) (ht : tr2 p = .ok c)
+    (hpre : readsOk (c.globals.map (·.1)) false p.pre = true)
+    (hbody : ∀ b, p.body = some b → readsOk (c.globals.map (·.1)) true b = true) : wf c = true := by
+  unfold tr2 at ht
+  obtain ⟨acc, hacc, ht⟩ := bind_ok ht
+  obtain ⟨loop, hc, hloop⟩ : ∃ loop, c = { globals := acc.globals.reverse, setup := seqOf acc.setup.reverse, loop := loop } ∧
+      (match p.body with | none => (Except.ok Stmt.skip : Except TrErr Stmt) | some b => trNested acc.te true 0 b) = .ok loop := by
+    cases hb : p.body with
+    | none => rw [hb] at ht; cases ht; exact ⟨_, rfl, rfl⟩
+    | some b =>
+      rw [hb] at ht
+      obtain ⟨loop, hloop, ht⟩ := bind_ok ht
+      cases ht; exact ⟨_, rfl, hloop⟩
+  subst hc
+  have hI : Inv acc := (trTop2_inv _ _ _ hacc).2 ⟨rfl, fun _ h => (by cases h), List.Pairwise.nil⟩
+  obtain ⟨h1, h2, h3⟩ := hI
+  have hin : InSc (acc.globals.reverse.map (·.1)) acc.te := by
+    intro x hx
+    rw [lookup_isSome_iff, h1, List.map_map] at hx
+    exact hx
+  have hg : globalsOk [] acc.globals.reverse = true :=
+    globalsOk_of_distinct _ _ (fun g hg => h2 g (List.mem_reverse.1 hg))
+      (List.pairwise_reverse.2 (h3.imp fun h => h.symm)) (fun _ _ => rfl)
+  have hsetup : stmtOk (acc.globals.reverse.map (·.1)) false (seqOf acc.setup.reverse) = true :=
+    stmtOk_seqOf _ _ _ (fun s hs =>
+      trTop2_setup _ _ _ _ hacc hpre hin (fun _ h => by cases h) s (List.mem_reverse.1 hs))
+  simp only [wf, Bool.and_eq_true]
+  refine ⟨⟨hg, hsetup⟩, ?_⟩
+  cases hb : p.body with
+  | none => rw [hb] at hloop; cases hloop; rfl
+  | some b =>
+    rw [hb] at hloop
+    exact trNested_ok b _ _ _ _ true _ _ hloop (hbody b hb) hin (fun _ h => absurd ⟨rfl, rfl⟩ h)
+
+end Promotion
 end Reduino.Lemmas.C06
